@@ -86,3 +86,17 @@ W unsigned w_nl_dec_dec_reached(uint8_t n) { return DeserializationOption::Nesti
 
 // ---- error strings (C20: no mutable statics)
 W const char* w_err_cstr(int code) { return DeserializationError(DeserializationError::Code(code)).c_str(); }
+
+// ---- string / raw comparison kernels (C14, C18)
+W int w_rawcmp(const char* a, size_t na, const char* b, size_t nb) { RawComparer c(RawString(b, nb)); return int(c.visit(RawString(a, na))); }
+W int w_strcmp_sized(const char* a, size_t na, const char* b, size_t nb) { return stringCompare(adaptString(a, na), adaptString(b, nb)); }
+W int w_strcmp_js(const char* a, size_t na, const char* b, size_t nb) { return stringCompare(adaptString(JsonString(a, na)), adaptString(JsonString(b, nb))); }
+W int w_strcmp_zt_sized(const char* a, const char* b, size_t nb) { return stringCompare(adaptString(a), adaptString(b, nb)); }
+W int w_strcmp_sized_zt(const char* a, size_t na, const char* b) { return stringCompare(adaptString(a, na), adaptString(b)); }
+W bool w_streq_sized(const char* a, size_t na, const char* b, size_t nb) { return stringEquals(adaptString(a, na), adaptString(b, nb)); }
+W bool w_streq_zt_sized(const char* a, const char* b, size_t nb) { return stringEquals(adaptString(a), adaptString(b, nb)); }
+W bool w_streq_sized_zt(const char* a, size_t na, const char* b) { return stringEquals(adaptString(a, na), adaptString(b)); }
+W bool w_streq_zt_zt(const char* a, const char* b) { return stringEquals(adaptString(a), adaptString(b)); }
+W int w_jscmp(const char* a, size_t na, const char* b, size_t nb) {  // Comparer<JsonString>::visit(JsonString)
+  Comparer<JsonString> c{JsonString(b, nb)}; return int(c.visit(JsonString(a, na)));
+}
